@@ -255,12 +255,14 @@ impl P16E1 {
             0x1
         } else {
             //remove hidden bits
+            //rounding to nearest must not reach 1.0: the sampled interval is [0, 1)
             Self::form_ui(
                 reg_len,
                 regime,
                 exp_a,
                 (frac32 & 0x3FFF_FFFF) >> (reg_len + 1),
             )
+            .min(0x3FFF)
         };
         Self::from_bits(u_z)
     }
